@@ -61,14 +61,20 @@ def good_paths(ctx, I, fn=None):
     for P in paths:
         for e in P.events:
             if e.kind == "unbound":
-                (maybe if e.name in assigned else never).setdefault(e.name, e.node)
+                if e.name not in assigned:
+                    never.setdefault(e.name, e.node)
+                    continue
+                # the path is certainly feasible when the facts assumed before the read are tests on pairwise different inputs
+                syms = [free_syms(P.norm(k)) for k, _ in P.fact_order[:e.nfacts]]
+                feasible = all(sy for sy in syms) and all(not (a & b) for i, a in enumerate(syms) for b in syms[i + 1:])
+                (never if feasible else maybe).setdefault(e.name, e.node)
     key = (ctx.rule, I.qual)
     bad = (ctx.rule, I.qual, tuple(sorted(never)), tuple(sorted(maybe)))
     if (never or maybe) and bad in memo:
         return paths
     memo.add(bad)
     if never:
-        ctx.fail(f"{I.qual}: no name is read that is never bound (NameError)", list(never.values())[0], sorted(never),
+        ctx.fail(f"{I.qual}: no name is read before it is bound (NameError / UnboundLocalError)", list(never.values())[0], sorted(never),
                  key=f"{ctx.rule}|{I.qual}|unbound {sorted(never)}")
     elif maybe:
         ctx.error(f"{I.qual}: a local is read on a path that does not assign it", list(maybe.values())[0], sorted(maybe))
@@ -237,6 +243,9 @@ def r1_roles(ctx):
                     s_ = J[1][2][0]
                     if s_[0] == "call" and s_[1] in ("nan_argmax", "nan_argmin") and len(s_[2]) == 2 and not s_[3]:
                         sel = s_
+                if sel is None and J[0] == "idx" and is_const(J[2]) and J[2][1] not in (0, -1) and J[1][0] == "call" and J[1][1] == ".nonzero":
+                    A.req(f"extrema [{arm}]: the replaced rows are element 0 of .nonzero() of the (1-D) selector mask", False, e.node, show(J))
+                    continue
                 if sel is None:
                     A.req(f"extrema [{arm}]: the rows of the {rname} column that get replaced come from nan_argmax / nan_argmin(...).nonzero()[0]", None,
                           e.node, show(J))
